@@ -157,8 +157,11 @@ func c15Keys(c *work.Ctx) {
 			shapes = append(shapes, []string{a, b})
 		}
 	}
+	// names with a character that has a two-character escape (the solidus): a key matcher that steps over
+	// escapes has one path for \uXXXX and one for the simple escapes
+	shapes = append(shapes, []string{"a/b", "a/cd", "ab"}, []string{"/", "//"}, []string{"a/", "a/b"})
 	keys := c15Names(keyLen)
-	keys = append(keys, "")
+	keys = append(keys, "", "a/", "a/b", "a/c", "a/cd", "a/cde", "/", "//", "///", "A/B", "a/B")
 	paddings := []struct {
 		name  string
 		total int
@@ -192,6 +195,9 @@ func c15Keys(c *work.Ctx) {
 				spellings := []struct{ name, text string }{{"raw", c15Escape(k, 99)}, {"escaped", c15Escape(k, -1)}}
 				if utf8.RuneCountInString(k) > 1 {
 					spellings = append(spellings, struct{ name, text string }{"first-escaped", c15Escape(k, 0)}, struct{ name, text string }{"last-escaped", c15Escape(k, utf8.RuneCountInString(k)-1)})
+				}
+				if strings.Contains(k, "/") {
+					spellings = append(spellings, struct{ name, text string }{"simple-escaped", strings.ReplaceAll(k, "/", `\/`)})
 				}
 				for _, sp := range spellings {
 					doc := []byte(`{"` + sp.text + `":5}`)
